@@ -24,7 +24,10 @@ TRound == /\ Ev("codec.roundtrip") /\ UNCHANGED pc
 \* a peer that sends a malformed or unexpected first message is disconnected, others are unaffected
 TFirst == /\ Ev("codec.first") /\ UNCHANGED pc
           /\ Flag(E.closed /\ E.healthy_ok /\ E.sessions = 1, "malformed / unexpected first message: peer not disconnected, or another session affected")
-TNext == TReset \/ TRegistry \/ TGolden \/ TCase \/ TRound \/ TFirst
+\* a well-formed message whose body is within the frame limit is accepted by a running server
+TLarge == /\ Ev("codec.large") /\ UNCHANGED pc
+          /\ Flag(E.body > MaxLen \/ E.accepted, "a well-formed message within the 10240-byte frame limit was refused by the running server")
+TNext == TLarge \/ TReset \/ TRegistry \/ TGolden \/ TCase \/ TRound \/ TFirst
 TSpec == TInit /\ [][TNext]_<<l, bad, pc>>
 NoMismatch == bad = {}
 HWM == TLCSet(1, IF TLCGet(1) < l THEN l ELSE TLCGet(1))
